@@ -4,7 +4,7 @@
    below is checked by computation inside Coq and holds for EVERY value (not a sample). *)
 From Coq Require Import List NArith ZArith Bool Lia Arith.
 From Coq Require Import ZifyBool ZifyNat ZifyN.
-From Wpull Require Import Model.UrlLib Model.Url Model.PyText Model.HttpMsg Model.Visit Gen.Consts.
+From Wpull Require Import Model.UrlLib Model.Url Model.PyText Model.HttpMsg Model.Visit Model.Engine Gen.Consts.
 Import ListNotations.
 Open Scope N_scope.
 
@@ -92,3 +92,7 @@ Theorem processor_status_codes_agree :
   DOCUMENT_STATUS_CODES = gen_document_status_codes /\ NO_DOCUMENT_STATUS_CODES = gen_no_document_status_codes /\
   REDIRECT_CODES = gen_redirect_codes /\ REPEAT_REDIRECT_CODES = gen_repeat_redirect_codes.
 Proof. repeat split; reflexivity. Qed.
+
+(* ---------- crawl engine: the size at which a visit commits its batch of admitted children ---------- *)
+Theorem engine_child_batch_size_agrees : N.of_nat flush_size = gen_child_batch_size.
+Proof. vm_compute. reflexivity. Qed.
